@@ -124,3 +124,262 @@ def histories_l4(o0: int, o1: int, o2: int, o3: int, backend: int):
     o3 = pick(o3, len(OPS))
     with concrete_region():
         _history(BACKENDS[backend], [o0, o1, o2, o3])
+
+
+# ------------------------------------------------------------------------------------------------
+# inductive step of the cache layer (StorageBackendBase + MemoryCache) over an exact store
+# ------------------------------------------------------------------------------------------------
+
+from collections import deque as _deque  # noqa: E402
+from weakref import WeakValueDictionary as _WVD  # noqa: E402
+
+from twosigma.memento.reference import FunctionReferenceWithArgHash as _FAH  # noqa: E402
+from twosigma.memento.storage_base import MemoryCache as _MC, MetadataSource as _MS, StorageBackendBase as _SBB, _CacheEntry  # noqa: E402
+from twosigma.memento.types import VersionedDataSourceKey as _VK  # noqa: E402
+
+from vp import fixtures as fx  # noqa: E402
+
+
+class _DictMetadata(_MS):
+    """exact metadata source: a dictionary (call key -> memento); counts accesses"""
+
+    def __init__(self):
+        super().__init__()
+        self.m = {}
+        self.meta = {}
+        self.reads = 0
+
+    @staticmethod
+    def _k(f):
+        return (f.fn_reference.qualified_name, f.arg_hash)
+
+    def get_mementos(self, fns):
+        self.reads += 1
+        return [self.m.get(self._k(f)) for f in fns]
+
+    def all_mementos_exist(self, fns):
+        self.reads += 1
+        return all(self._k(f) in self.m for f in fns)
+
+    def list_functions(self):
+        out = {}
+        for mem in self.m.values():
+            r = mem.invocation_metadata.fn_reference_with_args.fn_reference
+            out[r.qualified_name] = r
+        return list(out.values())
+
+    def list_mementos(self, fn, limit=None):
+        return [mm for (qn, _h), mm in self.m.items() if qn == fn.qualified_name][:limit]
+
+    def put_memento(self, memento):
+        f = memento.invocation_metadata.fn_reference_with_args
+        self.m[(f.fn_reference.qualified_name, f.arg_hash)] = memento
+
+    def read_metadata(self, fn_with_arg_hash, key, retry_on_none=False):
+        return self.meta.get((self._k(fn_with_arg_hash), key))
+
+    def write_metadata(self, fn_with_arg_hash, key, value, stored_with_data=False):
+        self.meta[(self._k(fn_with_arg_hash), key)] = value
+
+    def forget_call(self, f):
+        self.m.pop(self._k(f), None)
+
+    def forget_everything(self):
+        self.m.clear()
+
+    def forget_function(self, fn_reference):
+        for k in [k for k in self.m if k[0] == fn_reference.qualified_name]:
+            del self.m[k]
+
+
+class _DictCodec:
+    """exact blob store: content key -> the very object"""
+
+    def __init__(self):
+        self.blobs = {}
+        self.n = 0
+        self.loads = 0
+
+    def store(self, result_type, data_source, key_override, result):
+        self.n += 1
+        key = _VK("c/%d" % self.n, "v")
+        self.blobs[(key.key, key.version)] = result
+        return key
+
+    def load(self, result_type, data_source, key):
+        self.loads += 1
+        return self.blobs[(key.key, key.version)]
+
+
+class _LayerBackend(_SBB):
+    def __init__(self, cache):
+        super().__init__("stub", data_source=None, metadata_source=_DictMetadata(), memory_cache_mb=None, config={})
+        self._memory_cache = cache
+        self.codec = _DictCodec()
+
+    def to_dict(self):
+        return {"type": "stub"}
+
+
+LAYER_OPS = ["memoize", "get_mementos", "read_result", "is_memoized", "is_all_memoized", "forget_call", "forget_function",
+             "forget_everything"]
+
+
+def _layer_state(K, p, r, h, w, s, budget):
+    """store with presence bits p; cache in an arbitrary state CONSISTENT with it (the representation invariant)"""
+    cache = _MC.__new__(_MC)
+    cache.__dict__.update(_MC(1).__dict__)
+    cache.memory_cache_bytes = budget
+    cache.lru_deque = _deque()
+    cache.cache = dict()
+    cache.refs = _WVD()
+    be = _LayerBackend(cache)
+    vals = [fx.Val("stored%d" % i) for i in range(K)]
+    mems = []
+    usage = 0
+    for i in range(K):
+        mem = fx.make_memento(*fx.CALLS4[i])
+        mems.append(mem)
+        if p[i]:
+            mem.content_key = be.codec.store(None, None, None, vals[i])
+            be._metadata_source.put_memento(mem)
+        if r[i]:
+            cache.cache[fx.CACHE_KEYS4[i]] = _CacheEntry(s[i], mem, vals[i] if h[i] else None, h[i])
+            cache.lru_deque.append(fx.CACHE_KEYS4[i])
+            usage = usage + s[i]
+        if w[i]:
+            cache.refs[fx.CACHE_KEYS4[i]] = vals[i]
+    cache.memory_usage = usage
+    return be, cache, vals, mems, usage
+
+
+def _layer_invariant(K, be, cache, present, cur_mem, cur_val, tag):
+    """C06's accounting invariant + coherence of the cache with the store"""
+    total = 0
+    for k, e in cache.cache.items():
+        total = total + e.obj_size
+    check(tag + "usage==sum(resident sizes)", cache.memory_usage == total, None)
+    check(tag + "usage<=budget", cache.memory_usage <= cache.memory_cache_bytes, None)
+    dq = list(cache.lru_deque)
+    check(tag + "deque==resident-set-without-duplicates", len(dq) == len(set(dq)) and set(dq) == set(cache.cache.keys()), dq)
+    for i in range(K):
+        k = fx.CACHE_KEYS4[i]
+        e = cache.cache.get(k)
+        if e is not None:
+            check(tag + "resident-entry-belongs-to-a-stored-call", present[i], i)
+            check(tag + "resident-memento-is-the-store's", e.memento is cur_mem[i], i)
+            if e.has_value:
+                check(tag + "resident-value-is-the-store's", e.value is cur_val[i], i)
+        ref = cache.refs.get(k)
+        if ref is not None:
+            check(tag + "weak-ref-belongs-to-a-stored-call", present[i], i)
+            check(tag + "weak-ref-value-is-the-store's", ref is cur_val[i], i)
+
+
+@obligation(
+    "C05.cache_layer_step",
+    covers=("served-from-cache", "cache-filled-from-store", "oversize", "forgotten"),
+    split={"op": list(range(len(LAYER_OPS))), "t": [0, 1]},
+    tier_split={"thorough": {"op": list(range(len(LAYER_OPS))), "t": [0, 1, 2], "st0": list(range(7))}},
+    tier_args={"quick": {"K": 2}, "thorough": {"K": 3}},
+    bounds="INDUCTIVE STEP: StorageBackendBase with a real MemoryCache over an exact dictionary store, K = 2 calls (f#1/h1, f#1/h2; thorough K = 3 with f#10/h1); "
+           "ARBITRARY pre-state: presence bits of the store; resident / has-value / weak-ref bits of the cache consistent with it; sizes, "
+           "budget and the new result's size unbounded non-negative ints; one operation (memoize, get_mementos, read_result, is_memoized, "
+           "is_all_memoized, forget_call, forget_function, forget_everything) on call t: the answer equals the dictionary's, the "
+           "representation invariant (C06 accounting + every resident memento / value / weak ref is the store's current one, resident and "
+           "weakly referenced calls are stored calls) holds again, and every read-only query afterwards equals the dictionary's",
+    variables="data: s0..s2, budget, ns (ints); choice: st0..st2 (one of 7 consistent per-call states), u (second key)",
+    stubs=("exact dictionary MetadataSource and Codec under StorageBackendBase", "SizeOracle replaces MemoryCache._estimate_object_size"),
+    budget_s={"quick": 300, "thorough": 1500},
+    data_vars=5, choice_vars=4,
+)
+def cache_layer_step(op: int, t: int, st0: int, st1: int, st2: int, s0: int, s1: int, s2: int, budget: int, ns: int, u: int, K: int):
+    # per call one of 7 consistent states (no assumption-discarded paths):
+    # 0 absent | 1 stored | 2 stored + weak ref | 3 resident memento-only | 4 same + weak ref | 5 resident with value | 6 same + weak ref
+    sts = [pick(x, 7) for x in (st0, st1, st2)[:K]] + [0] * (3 - K)
+    p = [x >= 1 for x in sts]
+    r = [x >= 3 for x in sts]
+    h = [x >= 5 for x in sts]
+    w = [x in (2, 4, 6) for x in sts]
+    assume(s0 >= 0 and s1 >= 0 and s2 >= 0 and budget >= 0 and ns >= 0)
+    s = [s0 if r[0] else 0, s1 if r[1] else 0, s2 if r[2] else 0]
+    name = LAYER_OPS[op]
+    if name == "is_all_memoized":
+        u = pick(u, K)
+    else:
+        u = 0
+    be, cache, vals, mems, usage = _layer_state(K, p, r, h, w, s, budget)
+    assume(usage <= budget)
+    present = list(p)
+    cur_mem = list(mems)
+    cur_val = list(vals)
+    newval = fx.Val("new")
+    sizes = {id(newval): ns}
+
+    def size_of(obj):
+        return sizes.get(id(obj), 16)
+
+    orig = _MC._estimate_object_size
+    _MC._estimate_object_size = staticmethod(size_of)
+    try:
+        ref, x = fx.CALLS4[t]
+        fah = _FAH(ref, fx.HASHES4[t])
+        ms = be._metadata_source
+        reads0, loads0 = ms.reads, be.codec.loads
+        if name == "memoize":
+            newmem = fx.make_memento(ref, x)
+            be.memoize(None, newmem, newval)
+            present[t], cur_mem[t], cur_val[t] = True, newmem, newval
+            check("memoize-writes-through", ms.m.get((ref.qualified_name, fx.HASHES4[t])) is newmem and newmem.content_key is not None, None)
+            if ns > budget:
+                cover("oversize")
+        elif name == "get_mementos":
+            got = be.get_mementos([_FAH(fx.CALLS4[i][0], fx.HASHES4[i]) for i in range(K)])
+            for i in range(K):
+                check("get_mementos-answers-like-the-dictionary", got[i] is (cur_mem[i] if present[i] else None), i)
+            if all(r[i] or not present[i] for i in range(K)) and any(r):
+                cover("served-from-cache")
+            if any(present[i] and not r[i] for i in range(K)):
+                cover("cache-filled-from-store")
+        elif name == "read_result":
+            assume(present[t])
+            got = be.read_result(cur_mem[t])
+            check("read_result-returns-the-stored-value", got is cur_val[t], repr(got))
+            if (r[t] and h[t]) or (w[t] and not r[t]):
+                # (a memento-only resident entry whose value is still weakly referenced goes to the store: allowed)
+                cover("served-from-cache")
+                check("value-held-by-the-cache-is-served-without-touching-the-store", be.codec.loads == loads0, None)
+            else:
+                cover("cache-filled-from-store")
+        elif name == "is_memoized":
+            got = be.is_memoized(ref, fx.HASHES4[t])
+            check("is_memoized-answers-like-the-dictionary", bool(got) == present[t], (got, present[t]))
+        elif name == "is_all_memoized":
+            got = be.is_all_memoized([fx.fwa(*fx.CALLS4[t]), fx.fwa(*fx.CALLS4[u])])
+            check("is_all_memoized-answers-like-the-dictionary", bool(got) == (present[t] and present[u]), (got, present))
+        elif name == "forget_call":
+            be.forget_call(fah)
+            present[t] = False
+            cover("forgotten")
+        elif name == "forget_function":
+            be.forget_function(ref)
+            for i in range(K):
+                if fx.CALLS4[i][0].qualified_name == ref.qualified_name:
+                    present[i] = False
+            cover("forgotten")
+        else:
+            be.forget_everything()
+            present = [False] * K
+            cover("forgotten")
+        _layer_invariant(K, be, cache, present, cur_mem, cur_val, "after:")
+        # every read-only query now answers like the dictionary (this also exercises the cache fills once more)
+        for i in range(K):
+            ri, xi = fx.CALLS4[i]
+            check("then:is_memoized", bool(be.is_memoized(ri, fx.HASHES4[i])) == present[i], (i, present[i]))
+            gm = be.get_memento(_FAH(ri, fx.HASHES4[i]))
+            check("then:get_memento", gm is (cur_mem[i] if present[i] else None), i)
+            if present[i]:
+                check("then:read_result", be.read_result(gm) is cur_val[i], i)
+        _layer_invariant(K, be, cache, present, cur_mem, cur_val, "then:")
+    finally:
+        _MC._estimate_object_size = orig
